@@ -291,6 +291,58 @@ pub fn run(ctx: &Ctx) -> CheckResult {
         res.absorb(merge_jobs(outs));
     }
 
+    // medium periods on tick-grid walks (ties, plateaus, a new extreme exactly when a tied one leaves)
+    if !res.out.failed() {
+        let mut tw: Vec<(Cfg, bool)> = vec![];
+        for n in (6..=40usize).filter(|n| th || n % 4 == 1 || *n == 14 || *n == 20) {
+            for k in [Kind::Rsi, Kind::FastStoch, Kind::Er] {
+                tw.push((Cfg::p1(k, n), false));
+            }
+            tw.push((Cfg::p2(Kind::SlowStoch, n, 3), false));
+            tw.push((Cfg::p1(Kind::FastStoch, n), true));
+            tw.push((Cfg::p2(Kind::SlowStoch, n, 3), true));
+            tw.push((Cfg::p1(Kind::Mfi, n), true));
+        }
+        let len = if th { 2500 } else { 700 };
+        let outs = par_run(ctx, &tw, |_, (cfg, bars)| {
+            let mut out = JobOut::default();
+            for (si, positive) in [(0u64, true), (9, false)] {
+                if !positive && (*bars || cfg.kind == Kind::Rsi) {
+                    continue;
+                }
+                let walk = super::refcmp::tick_walk(len, ctx.seed ^ si, *bars, positive, si == 9);
+                let r = std::panic::catch_unwind(std::panic::AssertUnwindSafe(|| {
+                    let mut s = make(cfg);
+                    walk.iter().map(|op| s.apply(op)).collect::<Vec<Out>>()
+                }));
+                out.stats.traces += 1;
+                out.stats.transitions += len as u64;
+                match r {
+                    Ok(outs) => {
+                        for t in 0..len {
+                            if matches!(walk[t], Op::Reset) {
+                                continue;
+                            }
+                            let hist = since_reset(&walk[..=t]);
+                            let r = reference(cfg, hist);
+                            out.stats.states += 1;
+                            judge(cfg, &walk[..=t], &outs[t], hist.len(), r.den_zero, r.cond, &mut out);
+                            if out.failed() {
+                                return out;
+                            }
+                        }
+                    }
+                    Err(_) => {
+                        out.fail(Violation::new(PROP, cfg, &walk[..], "panic").obs("panic".into()).exp("outputs".into()));
+                        return out;
+                    }
+                }
+            }
+            out
+        });
+        res.absorb(merge_jobs(outs));
+    }
+
     // macro-step regimes: all orderings of 3 segments
     if !res.out.failed() {
         let set = [Regime::Up, Regime::Down, Regime::Tick, Regime::Osc, Regime::Gap, Regime::Flat, Regime::Outlier, Regime::Stair];
@@ -352,7 +404,7 @@ pub fn run(ctx: &Ctx) -> CheckResult {
         res.absorb(merge_jobs(outs));
     }
     res.rule = "case = (configuration, history); the real output is required to lie in [0,100] ([0,1] for ER) with 1e-9 absolute slack (MFI: 100*tau(t)*c, applied when c<=1000) at every step whose reference denominator is non-zero; non-trivial = output at or within 1e-6 of a range boundary".into();
-    res.bounds = format!("seq(S_pos+reset,{d}), seq(S_int,{}) and seq(S_wide={{1,3,1e9,1e17,1e-9}}, same depth), seq(S_huge={{1e307,7e307,2e307,4e307}}) seq(S_ulp = neighbours 1 and 4 ulps apart) and seq(S_subnormal = {{3,4,5,8}} x 4.9e-324 and 2.2e-308) for RSI/FAST_STOCH/ER, seq(B_grid+reset,{db}) FAST_STOCH, seq(B_vol,{dv}) and seq(B_mfi+reset,7/9) MFI, SLOW_STOCH (n x {{1,2,3}}) at reduced depth, periods 1..5; macro-step runs: all 8^3 orderings of {{up,down,tick,osc,gap,flat,outlier(1e9x),stair}} segments, scalar and bar paths, volumes spanning 1e-3..1e9; 16 orderings of 2 segments of 2600/6000 steps for periods 2 and 14", d - 1);
+    res.bounds = format!("seq(S_pos+reset,{d}), seq(S_int,{}) and seq(S_wide={{1,3,1e9,1e17,1e-9}}, same depth), seq(S_huge={{1e307,7e307,2e307,4e307}}) seq(S_ulp = neighbours 1 and 4 ulps apart) and seq(S_subnormal = {{3,4,5,8}} x 4.9e-324 and 2.2e-308) for RSI/FAST_STOCH/ER, seq(B_grid+reset,{db}) FAST_STOCH, seq(B_vol,{dv}) and seq(B_mfi+reset,7/9) MFI, SLOW_STOCH (n x {{1,2,3}}) at reduced depth, periods 1..5; tick-grid walks of 700 / 2500 steps for periods 6..40; macro-step runs: all 8^3 orderings of {{up,down,tick,osc,gap,flat,outlier(1e9x),stair}} segments, scalar and bar paths, volumes spanning 1e-3..1e9; 16 orderings of 2 segments of 2600/6000 steps for periods 2 and 14", d - 1);
     res.assumptions = vec!["RSI denominators below 1e-280 (fully decayed averages) count as zero: such windows are C08's subject".into()];
     res
 }
